@@ -1728,6 +1728,7 @@ def generic_rules(prop, index, rep):
     rep.rule(rid8, "documented errors are not swallowed: no pass-only handler in the property's modules can catch one of the library's own error classes raised inside the block it guards (directly or up to two resolved calls down)")
     with rep.section(rid8):
         ne_ = swallowed_error_rule(index, rep, rid8, mods)
+        ne_ += unbound_after_handler_rule(index, rep, rid8, mods)
         rep.ob(rid8, "src/dendropy", "%d pass-only handlers examined" % ne_, True, nontrivial=ne_ > 0)
     rid9 = "R%s.C" % prop[1:]
     rep.rule(rid9, "the library's own errors can be raised: every construction of a repository exception class in the property's modules passes keywords and positionals that the __init__ in effect along its MRO accepts")
@@ -2325,6 +2326,72 @@ def _exc_ancestors(index, cls_name, module):
                     out.add(b)
                     grew = True
     return out
+
+
+def _handler_falls_through(h):
+    last = h.body[-1]
+    if isinstance(last, (ast.Raise, ast.Return, ast.Continue, ast.Break)):
+        return False
+    if isinstance(last, ast.Expr) and isinstance(last.value, ast.Call) and norm(last.value.func) in ("sys.exit", "exit", "os._exit", "quit"):
+        return False
+    return True
+
+
+def unbound_after_handler_rule(index, rep, rid, modules):
+    """what a try block was to produce is not used after a handler let the failure pass: a name bound ONLY inside the
+    body of a `try` (nowhere else in the function) and read in the statements that follow the try statement is, on the
+    path through a handler that falls through, either unbound (UnboundLocalError - an internal error) or still holds
+    the value of an EARLIER pass of the enclosing loop (the previous item is used again). The use belongs in the
+    `else:` clause of the try."""
+    n = 0
+    for m in modules:
+        for f in index.functions_in_module(m):
+            pm = None
+            for t in [x for x in ast.walk(f.node) if isinstance(x, ast.Try)]:
+                if not t.handlers or not any(_handler_falls_through(h) for h in t.handlers):
+                    continue
+                n += 1
+                inbody = {id(y) for st in t.body for y in ast.walk(st)}
+                bound = {x.id for st in t.body for x in ast.walk(st) if isinstance(x, ast.Name) and isinstance(x.ctx, ast.Store)}
+                pm = pm or parent_map(f.node)
+                g = cfg_of(f)
+                tnodes = [nd for nd in g.nodes if nd.stmt is not None and id(nd.stmt) in inbody]
+                # bindings elsewhere count only when they can flow to the code after this try (a binding in the other
+                # arm of an enclosing if/else cannot)
+                par0 = pm.get(t)
+                sibs0 = []
+                for fld in ("body", "orelse", "finalbody"):
+                    seq = getattr(par0, fld, None)
+                    if isinstance(seq, list) and any(t is z for z in seq):
+                        sibs0 = seq[[i for i, z in enumerate(seq) if z is t][0] + 1:]
+                after_try = {id(nd) for nd in g.nodes if nd.stmt is not None and any(nd.stmt is y for ss in sibs0 for y in ast.walk(ss))}
+                elsewhere = set()
+                for x in ast.walk(f.node):
+                    if isinstance(x, ast.Name) and isinstance(x.ctx, ast.Store) and id(x) not in inbody and x.id in bound:
+                        st_ = x
+                        while st_ in pm and not isinstance(st_, ast.stmt):
+                            st_ = pm[st_]
+                        sn = [nd for nd in g.nodes if nd.stmt is st_]
+                        if not sn or any(id(z) in after_try for z in g.reach(sn[:1], follow_exc=False)):
+                            elsewhere.add(x.id)
+                only = bound - elsewhere - set(f.all_params)
+                if not only:
+                    continue
+                par = pm.get(t)
+                sibs = None
+                for fld in ("body", "orelse", "finalbody"):
+                    seq = getattr(par, fld, None)
+                    if isinstance(seq, list) and any(t is z for z in seq):
+                        sibs = seq[[i for i, z in enumerate(seq) if z is t][0] + 1:]
+                if sibs is None:
+                    continue
+                for st in sibs:
+                    used = [x for x in ast.walk(st) if isinstance(x, ast.Name) and isinstance(x.ctx, ast.Load) and x.id in only]
+                    if used:
+                        rep.check(False, rid, f.qualname, "a value of the try block used after a handler that falls through", fn_where(f, used[0]), "",
+                                  "%s binds `%s` only inside the `try` at line %d, has a handler that falls through, and reads it afterwards (`%s`): when the handler was taken the name is unbound - UnboundLocalError, an internal error - or, inside a loop, still holds the PREVIOUS item, which is then used a second time (a non-numeric token in a continuous PHYLIP row read with ignore_invalid_chars repeats the value before it: one column more than NCHAR)" % (f.qualname, used[0].id, t.lineno, norm_stmt(st)[:60]))
+                        break
+    return n
 
 
 def swallowed_error_rule(index, rep, rid, modules):
